@@ -4,6 +4,8 @@
 pub mod c01;
 pub mod c02;
 pub mod c04;
+pub mod c05;
+pub mod c06;
 pub mod c07;
 pub mod c09;
 pub mod c10;
